@@ -1,4 +1,4 @@
-import ScVerif.C06.Waste
+import ScVerif.C06.WasteLemmas
 /-!
 # C06 — a trait-level adapter inside the model: wastepb `ModelServer.PullWasteRecords`
 
@@ -23,7 +23,8 @@ theorem C06_waste_pull_commutes (mask : Option (List Path)) (updatesOnly : Bool)
       = (wastePull none updatesOnly hist cur evs).map (List.map (projectOpt mask)) := by
   rw [wastePull_eq mask updatesOnly hist cur evs h, wastePull_eq none updatesOnly hist cur evs proper_none]
   simp only [Option.map_some, List.map_append, List.map_map, Function.comp_def, projectOpt_nil_mask,
-    projectMask_none, projectOpt, rawValueStream]
+    projectMask_none]
+  rfl
 
 /-- **C06_waste_pull_values.**  With `updates_only` off on a model whose `lastWasteRecord` holds `c`: the
 stream sends the projections of the replayed window, then of `c`, then of every record published. -/
@@ -56,7 +57,7 @@ theorem C06_waste_window (hist : List Fields) (hne : hist ≠ []) :
   unfold wasteWindow
   have hl : (hist.drop (hist.length - 50)).getLast hd = hist.getLast hne := List.getLast_drop hd
   rw [← hl]
-  exact List.dropLast_append_getLast hd
+  exact List.dropLast_concat_getLast hd
 
 /-- **C06_waste_pull_no_panic.**  No mask, history or state makes the stream panic. -/
 theorem C06_waste_pull_no_panic (mask : Option (List Path)) (updatesOnly : Bool) (hist : List Fields)
